@@ -176,6 +176,15 @@ Proof. intros A l mn opt. exact (chunk_list_spec l mn opt). Qed.
 Print Assumptions C01_chunk_list.
 
 (* ---- index-based backend ---- *)
+(* items_of_layers unfolded: what a caller of BinaryBackend.statevector passes for a layer list *)
+Theorem C01_items_of_layers_def : forall R (ls : list (list (entry R))),
+  items_of_layers R ls = concat (map (layer_mitems R 0) ls) /\
+  (forall q, layer_mitems R q [] = []) /\
+  (forall q A r, layer_mitems R q (En2 A :: r) = (M2 R A, [Z.of_nat q]) :: layer_mitems R (S q) r) /\
+  (forall q G r, layer_mitems R q (En4 G :: EnOne :: r) = (M4 R G, [Z.of_nat q; Z.of_nat (S q)]) :: layer_mitems R (S (S q)) r) /\
+  (forall q G r, layer_mitems R q (EnOne :: En4 G :: r) = (M4 R G, [Z.of_nat q; Z.of_nat (S q)]) :: layer_mitems R (S (S q)) r).
+Proof. intros R ls. repeat split. Qed.
+
 Theorem C01_items_spec : forall R rO rI radd rmul rsub ropp, ring_theory rO rI radd rmul rsub ropp eq ->
   items_spec_stmt R rO rI radd rmul.
 Proof. intros R rO rI radd rmul rsub ropp Rth n ls. exact (items_spec R rO rI radd rmul n ls). Qed.
